@@ -5,7 +5,7 @@ EXTENDS EndBlock
 Stake2   == [o \in Oracle |-> CASE o = "o1" -> 4 [] o = "o2" -> 1 [] OTHER -> 1]
 Stake3   == [o \in Oracle |-> CASE o = "o1" -> 5 [] o = "o2" -> 4 [] o = "o3" -> 1 [] OTHER -> 1]
 StakeEq  == [o \in Oracle |-> 1]
-\* unequal stakes of the size of real ones (100 units = 10000 FX): small additions move the normalised powers by
-\* fractions with long binary expansions; +24 on o1 moves them by 9.78%, +25 by 10.14% (threshold 10%)
-StakeBig == [o \in Oracle |-> CASE o = "o1" -> 100 [] o = "o2" -> 60 [] o = "o3" -> 45 [] OTHER -> 30]
+\* unequal stakes of the size of real ones (1 unit = 100 FX): +1 unit moves the normalised powers by about 0.1%
+\* (a fraction with a long binary expansion); +120 on o1 moves them by 9.78%, +126 by 10.2% (threshold 10%)
+StakeBig == [o \in Oracle |-> CASE o = "o1" -> 500 [] o = "o2" -> 300 [] o = "o3" -> 225 [] OTHER -> 150]
 =============================================================================
